@@ -30,27 +30,27 @@ Theorem C24_no_panic_echo : forall args, echo_builtin args <> BPanic /\ echo_bui
 Proof. exact echo_builtin_ok. Qed.
 Print Assumptions C24_no_panic_echo.
 
-(* C24_format_matches, proved part.  Full statement wanted:
-     forall fmt args out st, spec_printf fmt args = Some (out, st) -> printf_builtin (fmt :: args) = BOut out st
-   (the Spec's domain = the directive subset on which the code is right).  PROVED here for ALL formats and ALL
-   argument lists in that domain whose directives are %s %c %b %% (any flag / 0 / width the Spec admits), with every
-   escape sequence in the format and in %b arguments, and with the reuse of the format while arguments remain.
-   MISSING (hence _partial): the numeric conversions %d %i %u %o %x, i.e. the two lemmas
-     spec_int arg = Some v -> parse_int0 arg = v      (strtoimax = strconv.ParseInt on complete in-range integers)
-     go_fmt_integer = C's sign/zero/space padding
-   which are covered by the code leg + oracle leg only (model = Go and Spec = bash on every generated case). *)
-Theorem C24_format_matches_partial : forall fmt args out st items,
-  spec_printf fmt args = Some (out, st) ->
-  spec_parse (S (length fmt)) fmt = Some items -> nonnum_items items = true ->
-  printf_builtin (fmt :: args) = BOut out st.
-Proof. exact printf_matches_nonnum. Qed.
-Print Assumptions C24_format_matches_partial.
+(* C24_format_matches: for ALL formats and ALL argument lists inside the Spec's domain (the directive subset on
+   which the code is right: %s %c %b %d %i %u %o %x %%, one flag of - + space, the 0 flag, widths up to 7 digits,
+   every escape sequence in the format and in %b arguments, arguments that are complete in-range integers for the
+   numeric conversions, fewer arguments than directives, more arguments = reuse of the format) the printf builtin
+   writes exactly the Spec's bytes and returns the Spec's status.  The domain excludes precisely the refuted
+   classes below (and what the property does not speak about); it is carved by the Spec returning None. *)
+Theorem C24_format_matches : forall fmt args out st,
+  spec_printf fmt args = Some (out, st) -> printf_builtin (fmt :: args) = BOut out st.
+Proof. exact printf_matches. Qed.
+Print Assumptions C24_format_matches.
 
-(* the hypotheses are satisfiable by a non-trivial input (flags, width, escapes, %b with \0NNN, %%, reuse) *)
+(* the numeric core: bash's strtoimax and Go's strconv.ParseInt(s, 0, 0) agree on every complete in-range integer *)
+Theorem C24_numeric_argument_matches : forall arg v, spec_int arg = Some v -> parse_int0 arg = v.
+Proof. exact parse_int0_spec. Qed.
+Print Assumptions C24_numeric_argument_matches.
+
+(* the hypothesis is satisfiable by a non-trivial input: every conversion, flags, zero padding, hex and octal
+   arguments, escapes, %b with \0NNN, %%, and one reuse of the format with missing arguments *)
 Example C24_format_matches_nonvacuous :
-  exists items out, spec_parse (S (length ex_fmt)) ex_fmt = Some items /\ nonnum_items items = true /\
-    spec_printf ex_fmt ex_args = Some (out, 0) /\ has_dir items = true /\ out <> [].
-Proof. exact printf_matches_nonnum_nonvacuous. Qed.
+  exists out, spec_printf ex_fmt ex_args = Some (out, 0) /\ printf_builtin (ex_fmt :: ex_args) = BOut out 0 /\ (40 < len out).
+Proof. exact printf_matches_nonvacuous. Qed.
 
 (* echo [-n] [-e] [-E] ...: for ALL argument lists inside the Spec's domain (option words = a dash followed by one or more of n e E, also combined like -ne; the
    last of e/E wins; under -e every escape \a \b \e \E \f \n \r \t \v \\ \0NNN \xHH \uHHHH \UHHHHHHHH (scalar
